@@ -94,7 +94,7 @@ PROPS["C14"] = {"pkgs": [(".", "TestVerif_C14")],
                                  "loss schedules drop up to five transmissions of a request and up to two responses, never all"],
                 "assumptions": ["interval + 2 x 23.4 s < timeout for each (driver, server timer) pair: the meaning given to 'compatible configuration'"]}
 
-PROPS["C18"] = {"pkgs": [("./internal/allocation", "TestVerif_C18TD"), (".", "TestVerif_C18Client"), (".", "TestVerif_C18Stress")],
+PROPS["C18"] = {"pkgs": [("./internal/allocation", "TestVerif_C18TD"), (".", "TestVerif_C18Client"), (".", "TestVerif_C18Stress", ["-race"])],
                 # thorough: everything under the race detector, and the concurrent campaigns of other properties as well
                 "go_flags": {"thorough": ["-race"]},
                 "extra_pkgs": {"thorough": [(".", "TestVerif_C16"), (".", "TestVerif_C12"), (".", "TestVerif_C14"),
